@@ -6,7 +6,7 @@ package main
 func init() {
 	property(&Property{
 		ID:          "C01",
-		Rules:       []string{"STOP-SET", "LITERAL-COMPARE", "OFFSET-BASE", "KEY-AGREE", "PATTERN-VERB", "VERB-KEY", "LEAF-EXHAUSTED", "VARS-ONLY", "PATH-NORMALISE", "PATH-SOURCE", "SEP-CHECK", "KIND-VALUE-AGREE", "KIND-EXHAUSTIVE", "MATCH-SOURCE", "LEX-EOF-ONLY", "POOL-UAP", "STORED-SLICE-REUSE", "CAPTURE-PAIRING", "SEL-COLLECT", "SEL-INSERT"},
+		Rules:       []string{"STOP-SET", "LITERAL-COMPARE", "OFFSET-BASE", "KEY-AGREE", "PATTERN-VERB", "VERB-KEY", "LEAF-EXHAUSTED", "VARS-ONLY", "PATH-NORMALISE", "PATH-SOURCE", "SEP-CHECK", "KIND-VALUE-AGREE", "KIND-EXHAUSTIVE", "MATCH-SOURCE", "LEX-EOF-ONLY", "POOL-UAP", "STORED-SLICE-REUSE", "CAPTURE-PAIRING", "SEL-COLLECT", "SEL-INSERT", "REMOVAL-LOOP-DIRECTION"},
 		Decides:     "Decides the comparisons and tables every sound matcher must contain: literal edges are followed by the same key they were created with; a variable pattern's literal arm rejects on kind or text mismatch; '*' stops at '/' and ':' and '**' at ':' only; each HttpRule pattern case maps to the HTTP method of the same name and the leaf lookup is keyed by the request's verb; a method is returned only when nothing but the end marker is left; captured text is bound only to the fields the template names; capture lengths use the right base. Also: path-bound integer/float/enum text is converted with the field's own kind and width (the KIND rules). Also: the method returned by the matchers comes from the trie walk of this request (or a memo keyed by both path and verb), never from a value remembered under less. Also: the path lexer closes the token list only at the end of the input (no silent truncation at the token budget). Also: the token list the matcher walks is not memory of a pooled lexer that a deferred Put hands to the next request. Also: service-config rules are bound only to methods their selector names (lookup descends component by component; insertion stores at the selected node).",
 		NotDecided:  "that a matching path is matched only by covering templates in general (lexer character classes, ':' handling, capture text equality, numeric conversion results, trailing-slash normalisation) - i.e. the behavioural statement itself.",
 		Assumptions: commonAssumptions,
@@ -27,35 +27,35 @@ func init() {
 	})
 	property(&Property{
 		ID:          "C04",
-		Rules:       []string{"DESC-ROLE", "FIELDPATH-SINGULAR", "RESP-APPLIED", "CT-AGREE", "CE-AGREE", "OFFERS-AGREE", "MD-RESERVED-TABLE", "POOL-FOREIGN", "NEGOTIATE-ADMITS", "MD-GATE-OUT", "OWS-BEFORE-SEP", "RESP-WALK-TOTAL", "SEND-FRAME-FLAG", "SCAN-PROGRESS", "TOKEN-CHARSET"},
+		Rules:       []string{"DESC-ROLE", "FIELDPATH-SINGULAR", "RESP-APPLIED", "CT-AGREE", "CE-AGREE", "OFFERS-AGREE", "MD-RESERVED-TABLE", "POOL-FOREIGN", "NEGOTIATE-ADMITS", "MD-GATE-OUT", "OWS-BEFORE-SEP", "RESP-WALK-TOTAL", "SEND-FRAME-FLAG", "SCAN-PROGRESS", "TOKEN-CHARSET", "JSON-MARSHAL-DELEGATES"},
 		Decides:     "Decides that the header naming the body's type/encoding and the codec/compressor that produced the body are chosen by the same value on every path, that response_body is resolved with its own selector against the reply type and applied on send, that offers come from the very codec map that is indexed, and that handler metadata cannot override Content-Type/Content-Encoding. Also: content negotiation selects an offer only where the Accept entry admits it, on every path; the reserved test sees the key in the table's case. Also: the Accept parser tests for ';', ',' and 'q=' on input whose optional whitespace was skipped. Also: the compressor that wraps the reply is the one registered under the announced Content-Encoding and no other (a variable shared with the request side is refused). Also: the response_body selector is walked to its end for every reply (no stop at an unset field). Also: the compressed-flag byte of every gRPC frame sent agrees with what was done to the payload (set after the last reallocation of the frame buffer, 1 exactly on the paths through the compressor). Also: the Accept parser's token class contains every RFC 7230 tchar.",
 		NotDecided:  "negotiation results for concrete Accept strings; marshalled bytes; whether compression is ever offered.",
 		Assumptions: commonAssumptions,
 	})
 	property(&Property{
 		ID:          "C05",
-		Rules:       []string{"STATUS-TABLE", "TABLE-GUARD", "TWIRP-TABLE", "ENCODER-CLOSE", "TAIL-FLUSH", "PANIC-REACH-SERVE", "ERR-SAME-STATUS", "GRPC-TRAILER-VALUES", "ESCAPE-SET", "CODEC-LOOKUP-TOTAL", "POOL-RESET", "FWD-ERR-IDENTITY", "STATUS-BLOCK", "WEB-FLUSH-COMMITS", "DISPATCH-PREFIX-ORDER", "CONST-INDEX"},
+		Rules:       []string{"STATUS-TABLE", "TABLE-GUARD", "TWIRP-TABLE", "ENCODER-CLOSE", "TAIL-FLUSH", "PANIC-REACH-SERVE", "ERR-SAME-STATUS", "GRPC-TRAILER-VALUES", "ESCAPE-SET", "CODEC-LOOKUP-TOTAL", "POOL-RESET", "FWD-ERR-IDENTITY", "STATUS-BLOCK", "WEB-FLUSH-COMMITS", "DISPATCH-PREFIX-ORDER", "CONST-INDEX", "ERR-BODY-UNCONDITIONAL"},
 		Decides:     "Decides the table-shaped and pairing-shaped parts of status fidelity: status tables equal the documented mapping and their guards are exact; the Twirp name table equals the Twirp spec; the base64 stream of gRPC-web-text is terminated; the grpc-message encoder writes its tail; the error encoders contain no reachable panic; code, message and details come from one status value derived from the handler's error and reach the gRPC trailers through the right encoders. Also: a pooled buffer that becomes the gRPC-web trailer frame is Reset after Get. Also: the proxy's error filter sets aside only nil / io.EOF / context.Canceled by identity (a Canceled *status* of the backend is relayed). Also: the gRPC status is written after the headers were flushed on every path, or else nothing is placed in a later block than the status. Also: the protocol dispatch tests the more specific content-type prefix first. Also: constant indexes into strings on request paths sit behind a sufficient length test.",
 		NotDecided:  "encodeGrpcMessage's per-character output beyond 'no input byte is skipped', WebSocket close-frame payload limits, equality of details.",
 		Assumptions: commonAssumptions,
 	})
 	property(&Property{
 		ID:          "C06",
-		Rules:       []string{"ENCODER-CLOSE", "CARRY-OVER", "FRAME-AGREE", "READFULL-EOF", "FWD-CLOSESEND", "COMPRESS-FLAG", "READ-FAIL-NONNIL", "CLOSE-ONCE", "JSON-FRAME-TABLE", "WS-DATA-KINDS", "CLEAN-END-EOF-ONLY", "READ-DATA-FIRST", "CARRY-COUNTED", "POOL-FOREIGN", "SEND-FRAME-FLAG", "UNMARSHAL-RESETS", "EOF-NO-PHANTOM", "DISPATCH-PREFIX-ORDER", "VARINT-PREFIX"},
+		Rules:       []string{"ENCODER-CLOSE", "CARRY-OVER", "FRAME-AGREE", "READFULL-EOF", "FWD-CLOSESEND", "COMPRESS-FLAG", "READ-FAIL-NONNIL", "CLOSE-ONCE", "JSON-FRAME-TABLE", "WS-DATA-KINDS", "CLEAN-END-EOF-ONLY", "READ-DATA-FIRST", "CARRY-COUNTED", "POOL-FOREIGN", "SEND-FRAME-FLAG", "UNMARSHAL-RESETS", "EOF-NO-PHANTOM", "DISPATCH-PREFIX-ORDER", "VARINT-PREFIX", "GZIP-WHOLE-BODY"},
 		Decides:     "Decides only three structural necessary conditions of 'no lost byte': the gRPC-web-text byte stream is terminated; bytes a stream codec read past the current message are saved on every path and handed to the next read; the gRPC frame writer and reader (and the gRPC-web trailer frame) agree on header length, offsets and byte order. Also: a proxied half-close is sent only after a clean inbound end; a gRPC message is decompressed iff its own flag byte is set; a failed transport read never yields a nil error. Also: the compressing writer is closed once per message (a second Close returns it to its pool twice and two streams share it). Also: the JSON stream codec's framing decisions - where a message ends - follow JSON's lexical structure (JSON-FRAME-TABLE). Also: the WebSocket stream reads text and binary data frames alike; a read error is taken for a clean end only when it is io.EOF itself. Also: the proto codec never decodes with the Merge option (no merged messages on a reused destination). Also: the end of an HTTP request stream is reported as io.EOF, never as one more (empty) message.",
 		NotDecided:  "and this is most of the property: sequence equality, fragmentation invariance, truncation behaviour, phantom/dropped messages at EOF, WebSocket end-of-stream.",
 		Assumptions: commonAssumptions,
 	})
 	property(&Property{
 		ID:          "C07",
-		Rules:       []string{"PARAM-ORDER", "LAST-WRITER", "DECODE-THEN-PARAMS", "FD-LOCALISER", "PARAM-INDEPENDENT", "CAPTURE-PAIRING", "PARAM-STABLE-ORDER"},
+		Rules:       []string{"PARAM-ORDER", "LAST-WRITER", "DECODE-THEN-PARAMS", "FD-LOCALISER", "PARAM-INDEPENDENT", "CAPTURE-PAIRING", "PARAM-STABLE-ORDER", "POOL-ESCAPE"},
 		Decides:     "Decides the precedence between the three input channels for singular fields, which is entirely structural: params.set is last-writer-wins, so the property holds iff path captures are applied after query parameters and after the body; every stream receives the composed list. Also: a path-bound value is written into the field with the stored descriptor's number/name on whichever backend handles the call (FD-LOCALISER). Also: every parameter is written along its own field path from the request message (nothing is carried over from the previous parameter). Also: captures and field paths are counted one per variable node on both sides (addRule and search), so a capture cannot be dropped or shifted when rules share a node.",
 		NotDecided:  "repeated path-bound fields (both channels append); protoreflect's Set itself.",
 		Assumptions: commonAssumptions,
 	})
 	property(&Property{
 		ID:          "C08",
-		Rules:       []string{"LIMIT-SRC", "LIMIT-STRICT", "LIMIT-IMPL", "LIMIT-DEFAULTS", "SIGNCONV", "OPTS-RO", "COMPRESS-FLAG", "POOL-RESET", "LIMIT-RETURN-BOUND", "LIMIT-DIRECTION", "LIMIT-AFTER-DECOMPRESS"},
+		Rules:       []string{"LIMIT-SRC", "LIMIT-STRICT", "LIMIT-IMPL", "LIMIT-DEFAULTS", "SIGNCONV", "OPTS-RO", "COMPRESS-FLAG", "POOL-RESET", "LIMIT-RETURN-BOUND", "LIMIT-DIRECTION", "LIMIT-AFTER-DECOMPRESS", "DECODEDLEN-IS-A-BOUND"},
 		Decides:     "Decides that every way request bytes enter memory on a request-reachable path is bounded by the configured receive limit before use on every protocol (including after decompression and on WebSocket), that refusing comparisons are strict (a message exactly at the limit is accepted), that every in-repo stream codec honours its limit, that wire lengths cannot wrap through a sign-changing conversion, and that the limit in force is the configured one. Also: a LimitReader in front of a length check lets limit+1 bytes through; the gRPC send limit is compared with the encoded, not the compressed size. Also: a StreamCodec reports no length above the limit next to an error either. Also: stale bytes of a pooled (de)compression buffer cannot count against the limit (Reset after Get, or Reset before every Put). Also: the length an in-repo ReadNext returns is bounded by the limit as a value (the compared counter is not advanced between the comparison and the return). Also: refusals on send paths use the send limit and refusals on receive paths the receive limit. Also: whether a refusal on the wire length of a gRPC frame spares compressed frames (it does not: known finding D51).",
 		NotDecided:  "numeric boundary behaviour of library readers, memory use, user-supplied StreamCodecs.",
 		Assumptions: commonAssumptions,
@@ -76,7 +76,7 @@ func init() {
 	})
 	property(&Property{
 		ID:          "C11",
-		Rules:       []string{"WRITER-PUBLISHES", "ADD-REMOVE-SYMMETRY", "REMOVE-FILTER", "PICK-CURRENT", "COW-6", "STORED-SLICE-REUSE", "FD-LOCAL", "DELRULE-GUARD", "NIL-STATE", "DESC-BY-NAME", "COW-2", "HANDLERS-PRESENCE", "CONN-OWNS-ALL", "COW-5", "FDHASH-STREAMED", "DELRULE-TOTAL", "STATE-SLICE-APPEND"},
+		Rules:       []string{"WRITER-PUBLISHES", "ADD-REMOVE-SYMMETRY", "REMOVE-FILTER", "PICK-CURRENT", "COW-6", "STORED-SLICE-REUSE", "FD-LOCAL", "DELRULE-GUARD", "NIL-STATE", "DESC-BY-NAME", "COW-2", "HANDLERS-PRESENCE", "CONN-OWNS-ALL", "COW-5", "FDHASH-STREAMED", "DELRULE-TOTAL", "STATE-SLICE-APPEND", "REMOVAL-LOOP-DIRECTION"},
 		Decides:     "Decides that every operation that changes the registration set publishes it, that removal empties what registration fills and keeps exactly the handlers of other connections, that dropping an unknown connection changes nothing, and that dispatch reads one current snapshot and answers Unimplemented exactly when no handler is left. Also: DropConn/registration never touch a nil snapshot; 'same method' is decided on full names, never on descriptor identity. Also: writers load the snapshot under the lock (no lost registration or drop); presence of a key in the handler table is trusted only if removal deletes emptied entries. Also: a connection leaves state.conns only through removeHandler, together with its handlers. Also: the handler list recorded for a connection covers every handler installed for it (never re-made inside the loops). Also: the clone a writer works on shares no mutable routing memory with the published snapshot (struct copies included), so a registration that fails half-way leaves the live routes as they were. Also: the digest that decides 'connection unchanged' is one streaming hash over all received file descriptors. Also: removing a method removes every rule of it (delRule visits every child and clears the kind-'*' slot), so a later re-registration re-creates all bindings. Also: dispatch never edits the handler lists of the published snapshot in place.",
 		NotDecided:  "behaviour over histories (stale routes answering Unimplemented, which backend answers).",
 		Assumptions: commonAssumptions,
@@ -90,7 +90,7 @@ func init() {
 	})
 	property(&Property{
 		ID:          "C13",
-		Rules:       []string{"POOL-TYPE", "POOL-RESET", "POOL-ESCAPE", "POOL-UAP", "POOL-ONCE", "OPTS-RO", "GO-SHARED", "SENDRECV-DISJOINT", "PER-REQUEST-FRESH", "POOL-FOREIGN", "CLOSE-ONCE", "MD-OWNED", "POOL-SELF-TERMINAL", "JOIN-EXIT", "CALL-FRESH-MESSAGE", "STATE-SLICE-APPEND"},
+		Rules:       []string{"POOL-TYPE", "POOL-RESET", "POOL-ESCAPE", "POOL-UAP", "POOL-ONCE", "OPTS-RO", "GO-SHARED", "SENDRECV-DISJOINT", "PER-REQUEST-FRESH", "POOL-FOREIGN", "CLOSE-ONCE", "MD-OWNED", "POOL-SELF-TERMINAL", "JOIN-EXIT", "CALL-FRESH-MESSAGE", "STATE-SLICE-APPEND", "BODY-RELEASE-NEEDS-JOIN"},
 		Decides:     "Decides the ownership discipline of everything shared between requests: pooled objects are typed, reset before use, never escape into messages/fields/goroutines, are not used after being returned and are returned at most once; options are read-only on serving paths; what a spawned pump shares is read only after its join and it never touches the response side; the send and receive halves of a stream touch disjoint state; stream objects and lexers are per-request allocations. Also: a stream's header/trailer metadata are its own maps, not the handler's. Also: a reader that returns itself to its pool on io.EOF reports that EOF (a hidden EOF makes the caller read a pooled object and pool it twice). Also: serveGRPC joins in-flight stream calls on every way out (deferred Wait); memory of a pooled object is not returned under a deferred Put. Also: request code never appends into a slice that comes out of the routing state (shared between all requests of a route).",
 		NotDecided:  "absence of races in general (no lockset analysis of stream fields across handler-spawned goroutines), byte-level isolation, user codecs that alias their input.",
 		Assumptions: commonAssumptions,
@@ -104,7 +104,7 @@ func init() {
 	})
 	property(&Property{
 		ID:          "C15",
-		Rules:       []string{"CTX-ANCESTRY", "TIMEOUT-APPLIED", "TIMEOUT-REFUSED", "UNIT-TABLE", "TIMEOUT-DIGITS", "TIMEOUT-CLAMP", "READ-FAIL-NONNIL", "CLEAN-END-EOF-ONLY", "DONE-BEFORE-WRITE", "NO-FULL-DUPLEX"},
+		Rules:       []string{"CTX-ANCESTRY", "TIMEOUT-APPLIED", "TIMEOUT-REFUSED", "UNIT-TABLE", "TIMEOUT-DIGITS", "TIMEOUT-CLAMP", "READ-FAIL-NONNIL", "CLEAN-END-EOF-ONLY", "DONE-BEFORE-WRITE", "NO-FULL-DUPLEX", "BODY-AFTER-TIMEOUT"},
 		Decides:     "Decides that the handler's context always descends from the request's context through context-deriving calls only, that a present grpc-timeout is decoded with the spec's unit table and length bounds and installed with context.WithTimeout, and that a malformed one is refused before the handler can run. Also: the decoded timeout is installed on every path to the handler (a zero timeout included); a failed frame read never returns a possibly-nil error. Also: a body cut short (io.ErrUnexpectedEOF) is never presented to the handler as a clean end of stream. Also: the connection is never switched to HTTP/1 full duplex (net/http's disconnect detection, and with it cancellation of the handler's context, depends on it).",
 		NotDecided:  "promptness; that a handler blocked inside r.Body.Read is released (net/http behaviour); sign/overflow handling of the digits.",
 		Assumptions: commonAssumptions,
@@ -118,14 +118,14 @@ func init() {
 	})
 	property(&Property{
 		ID:          "C17",
-		Rules:       []string{"LIMIT-IMPL", "LIMIT-STRICT", "SIGNCONV", "COMMAOK-SERVE", "READFULL-EOF", "SLICE-CAP", "READ-FAIL-NONNIL", "JSON-FRAME-TABLE", "LOOP-PROGRESS", "SCAN-INDEX-GUARDED", "READ-DATA-FIRST", "CARRY-COUNTED", "LIMIT-RETURN-BOUND", "EOF-NO-PHANTOM", "VARINT-PREFIX"},
+		Rules:       []string{"LIMIT-IMPL", "LIMIT-STRICT", "SIGNCONV", "COMMAOK-SERVE", "READFULL-EOF", "SLICE-CAP", "READ-FAIL-NONNIL", "JSON-FRAME-TABLE", "LOOP-PROGRESS", "SCAN-INDEX-GUARDED", "READ-DATA-FIRST", "CARRY-COUNTED", "LIMIT-RETURN-BOUND", "EOF-NO-PHANTOM", "VARINT-PREFIX", "POOL-ESCAPE", "POOL-RESET"},
 		Decides:     "Decides the limit-safe half: every in-repo ReadNext compares against its limit before it can return a message, strictly, and in a domain where the decoded length cannot wrap. Also: a failed transport read in RecvMsg returns a certainly non-nil error. Also: the JSON codec's scanner, as a transition table read off its loop body, agrees with JSON's lexical structure on every transition up to brace depth 4 (string start/end, backslash escapes, braces inside strings, message end exactly at the closing brace of depth 0, refusal of a surplus closing brace) and depends on nothing but its state and the current byte. Also: growcap's x += x/4 loop is entered only with x >= 4. Also: the proto stream writer's length prefix is a varint for every length (a single byte only below 128).",
 		NotDecided:  "invariance under where the reader splits the bytes (refill boundaries, carry-over exactness; the table rule assumes the current byte is buffered), the proto codec's varint handling beyond the limit/width checks, a JSON scanner that consumes more than one byte per iteration (reported undecided).",
 		Assumptions: commonAssumptions,
 	})
 	property(&Property{
 		ID:          "C18",
-		Rules:       []string{"STATS-PAIR", "STATS-ERR", "STATS-ORDER", "STATS-PURE", "NILABLE-FIELD", "IC-ONCE", "IC-PASSTHRU", "ROLE-AGREE", "STATS-PAYLOAD-EACH", "STATS-JOINED", "STATS-MD-COPY"},
+		Rules:       []string{"STATS-PAIR", "STATS-ERR", "STATS-ORDER", "STATS-PURE", "NILABLE-FIELD", "IC-ONCE", "IC-PASSTHRU", "ROLE-AGREE", "STATS-PAYLOAD-EACH", "STATS-JOINED", "STATS-MD-COPY", "STATS-FANOUT-THREADS"},
 		Decides:     "Decides the exactly-once and pairing structure: each handler closure invokes the RPC through the configured interceptor exactly once and never directly; the nil-safe wrappers pass arguments and results through unchanged; streaming flags and method names agree with the descriptor; every Begin has exactly one End carrying the handler's error; events are ordered and share TagRPC's context; stats-only code cannot change or crash the RPC. Also: a closure that exists only with a stats handler assigns nothing the serve function reads outside stats-only code; a return whose error is not known non-nil counts as a success for the payload event. Also: every stream method that reports a stats event is joined (WaitGroup) before the serve function emits End. Also: every invocation of the handler in a serve function feeds End.Error (no branch keeps the result to itself). Also: the reply a unary handler closure sends is the interceptor-mediated invocation's own result.",
 		NotDecided:  "one payload event per message (WebSocket and body-less requests emit none), event field values, user-supplied interceptors.",
 		Assumptions: commonAssumptions,
